@@ -190,7 +190,7 @@ func (c *Confirm) Get(w http.ResponseWriter, r *http.Request) error {
 
 	rawToken, err := base64.URLEncoding.DecodeString(values.GetToken())
 	if err != nil {
-		logger.Infof("error decoding token in Confirm.Get, this typically means a bad token: %s %+v", values.GetToken(), err)
+		logger.Infof("error decoding token in Confirm.Get, this typically means a bad token: %+v", err)
 		return c.invalidToken(w, r)
 	}
 
